@@ -313,9 +313,59 @@ def _variants():
         V("addpoint-east-is-west", replace_expr(MP, "MeshPatt.add_point", "((x + 1, y), (x + 1, y + 1))", "((x, y), (x, y + 1))"), "fire", "C18-D1"),
         V("addpoint-north-one-cell", replace_expr(MP, "MeshPatt.add_point", "((x, y + 1), (x + 1, y + 1))", "((x, y + 1), (x, y + 1))"), "fire", "C18-D1"),
         V("addpoint-dirs-swapped", [replace_expr(MP, "MeshPatt.add_point", "shade_dir == DIR_WEST", "shade_dir == DIR_SOUTH"), replace_expr(MP, "MeshPatt.add_point", "shade_dir == DIR_SOUTH", "shade_dir == DIR_WEST", which=2)], "fire", "C18-D1"),
+        V("lemma-skips-wrong-column", replace_expr(MP, "MeshPatt.north_east_shading_lemma_conditions", "n_x not in (x - 1, x)", "n_x not in (x, x + 1)"), "fire", "C18-N1"),
+        V("lemma-both-to-either", replace_expr(MP, "MeshPatt.north_east_shading_lemma_conditions", "all(((x, y - 1) in self.shading, (x - 1, y) in self.shading))", "any(((x, y - 1) in self.shading, (x - 1, y) in self.shading))"), "fire", "C18-N1"),
+        V("lemma-propagation-reversed", replace_expr(MP, "MeshPatt.north_east_shading_lemma_conditions", "(n_x, y - 1) in self.shading and (n_x, y) not in self.shading", "(n_x, y) in self.shading and (n_x, y - 1) not in self.shading"), "fire", "C18-N1"),
+        V("lemma-sw-box-ignored", replace_expr(MP, "MeshPatt.north_east_shading_lemma_conditions", "(x - 1, y - 1) in self.shading", "False"), "fire", "C18-N1"),
+        V("lemma-point-value-off", replace_expr(MP, "MeshPatt.north_east_shading_lemma_conditions", "self.pattern[x - 1] != y - 1", "self.pattern[x - 1] != y"), "fire", "C18-N1"),
         # silent
+        V("lemma-conditions-reordered", replace_expr(MP, "MeshPatt.north_east_shading_lemma_conditions", "(x, y) in self.shading", "(x - 1, y - 1) in self.shading", which=1), "fire-or-undecided", "C18-N1", note="(this swap duplicates a condition and drops another: not a pure reordering)"),
+        V("lemma-x-eq-0", replace_expr(MP, "MeshPatt.north_east_shading_lemma_conditions", "x - 1 < 0", "x == 0"), "silent"),
         V("reformat", reformat_only(MP), "silent"),
         V("rename-ans", rename_local(MP, "MeshPatt.can_shade", "ans", "point"), "silent"),
         V("back-count-explicit", replace_expr(MP, "MeshPatt.can_shade", "range(-rot % 4)", "range((4 - rot) % 4)"), "silent"),
         V("cells-reordered-in-update", replace_expr(MP, "MeshPatt.add_point", "((x + 1, y), (x + 1, y + 1))", "((x + 1, y + 1), (x + 1, y))"), "silent"),
     ]
+
+
+# ------------------------------------------------------------------ N1: the shading lemma's side conditions (single cell)
+
+
+def rule_n1(ctx: Ctx) -> None:
+    """Shading Lemma (Hilmarsson, Jonsdottir, Sigurdardottir, Vidarsdottir, Ulfarsson 2015): the box (x, y) north-east of
+    the point (x-1, y-1) may be shaded if it is unshaded, the box south-west of the point is unshaded, at most one of the
+    boxes west/south of (x, y) adjacent to the point is shaded, and shading propagates across the horizontal line below
+    (x, y) and the vertical line left of it everywhere except next to the point."""
+    import itertools
+
+    from ..skelrules import check_skeleton
+
+    f = ctx.repo.need_method("MeshPatt", "north_east_shading_lemma_conditions")
+    S = "self.shading"
+    N = "len(self.pattern) + 1"
+    no_point = ["x - 1 < 0 or self.pattern[x - 1] != y - 1", "x == 0 or self.pattern[x - 1] != y - 1", "x < 1 or self.pattern[x - 1] != y - 1", "x <= 0 or self.pattern[x - 1] != y - 1"]
+    excl_x = ["(x - 1, x)", "(x, x - 1)"]
+    excl_y = ["(y - 1, y)", "(y, y - 1)"]
+    specs = []
+    for c2, ex, ey in itertools.product(no_point, excl_x, excl_y):
+        specs.append(
+            "x, y = a0\n"
+            f"return not any(((x, y) in {S}, {c2}, (x - 1, y - 1) in {S}, (x, y - 1) in {S} and (x - 1, y) in {S}, "
+            f"any((l, y - 1) in {S} and (l, y) not in {S} for l in range({N}) if l not in {ex}), "
+            f"any((x - 1, l) in {S} and (x, l) not in {S} for l in range({N}) if l not in {ey})))"
+        )
+        specs.append(specs[-1].replace("len(self.pattern) + 1", "len(self) + 1"))
+    check_skeleton(ctx, "C18-N1", f, specs, "north-east shading-lemma conditions = the published lemma's four conditions (plus: box unshaded, point present)")
+
+
+_OLD_RUN = run
+
+
+def run(ctx: Ctx) -> None:  # noqa: F811
+    _OLD_RUN(ctx)
+    ctx.run(rule_n1, ctx)
+
+
+FLOORS["C18-N1"] = 1
+EXPLANATION = EXPLANATION.replace("NOT decided: the north-east side conditions themselves,", "(c) the single-cell north-east side conditions are the published Shading Lemma's conditions (N1, skeleton comparison "
+                                  "modulo order of the conditions). NOT decided: the simultaneous (two-cell) side conditions,")
